@@ -344,6 +344,8 @@ def split_iterators(items, ctx):
             f.header = [Tok(t.kind, t.text, t.line) for t in f.header]
             # Self::Item -> concrete item type
             htxt = text_of(f.header).replace("Self::Item", item_ty)
+            if not re.match(r"\s*pub\b", htxt):
+                htxt = re.sub(r"^(\s*)fn\b", r"\1pub fn", htxt, count=1)
             f.header = [Tok("ident", htxt, f.line)]
             f.parent = dup
             dup.children = [f]
